@@ -146,6 +146,16 @@ fn main() {
         }
     }
     {
+        // hand-written Debug / PartialEq over bit-fields that do not start the record (a plain member, a second allocation unit,
+        // a zero-width separator in front of them); Debug cannot be derived because of the 13-parameter function pointer
+        let text = "typedef void (*bigfn)(int,int,int,int,int,int,int,int,int,int,int,int,int);\nstruct BF1 { long head; bigfn cb; unsigned ready : 1; unsigned mode : 3; unsigned count : 12; };\nstruct BF2 { char pad[12]; unsigned a : 5; int : 0; unsigned b : 7; bigfn cb; };\nstruct BF3 { bigfn cb; unsigned long long wide : 40; char mid; unsigned tail : 9; };\n".to_string();
+        for fl in [vec!["--impl-debug"], vec!["--impl-debug", "--impl-partialeq", "--with-derive-partialeq"], vec!["--impl-debug", "--no-derive-copy", "--with-derive-default"]] {
+            let mut f: Vec<String> = fl.iter().map(|x| x.to_string()).collect();
+            f.push("--no-layout-tests".into());
+            work.push((text.clone(), f));
+        }
+    }
+    {
         // plain data (model-free completeness): records whose members are scalars, pointers, small arrays, a complex number or a
         // vector; whatever the allow-list mode, nothing the user asked for keeps them from Debug / Copy / Clone
         // (`PLAIN-DATA:` lists the names the oracle below looks at)
